@@ -23,9 +23,10 @@ PROBES = {
             "update_params_false", "refit_equivalence_checked", "no_param_update_checked",
             "update_predict_checked", "update_predict_default_cv", "update_predict_multi_step",
             "update_before_any_fh", "pickle_midway", "ensemble_parallel_update",
-            "cutoff_restored_checked"],
+            "cutoff_restored_checked", "exogenous_data"],
     "C03": ["gapped_fh", "absolute_fh", "fh_at_fit", "fh_reused_across_cutoffs",
             "predict_after_update", "shifted_twin_checked", "gapped_vs_contiguous_checked",
+            "exogenous_data",
             "int_index_nonzero_origin", "negative_origin", "composite_depth2",
             "tuned_forecaster"],
 }
@@ -138,17 +139,45 @@ def generate(prop, rng, tier):
         if o["op"] == "update" and o["take"] == 0 and (
                 seen_upd or spec["kind"] in ("ttf", "stack", "ensemble", "mux", "gscv", "theta")):
             o["take"] = 1
+    exog = False
+    if _exog_ok(spec) and rng.random() < 0.35:
+        exog = True
+        ops = [o for o in ops if o["op"] not in ("ups", "upd")]
+        for o in ops:  # check_y_X(allow_empty=True) does not extend to X: no empty batches with X
+            if o["op"] == "update" and o["take"] == 0:
+                o["take"] = 1
     mode = rng.choice(["fifo", "ooo", "ooo", "interleave", "interleave"])
     scen = {
         "spec": spec,
         "series": {"seed": rng.randint(0, 10 ** 6), "n": total + 4, "origin": origin,
                    "index": index_kind, "sp": rng.choice([2, 3, 4, 4, 6])},
         "shift": rng.choice([-40, -7, 1, 3, 10, 100, 500]),
+        "exog": exog,
         "ops": ops,
         "sched": {"mode": mode, "seed": rng.randint(0, 10 ** 6),
                   "p": rng.choice([0.01, 0.05, 0.1, 0.3])},
     }
     return scen
+
+
+def _exog_ok(spec):
+    """Forecasters that accept exogenous data in fit/update (others raise NotImplementedError)."""
+    k = spec["kind"]
+    if k == "naive":
+        return True
+    if k == "reduce":
+        return spec["strategy"] in ("direct", "multioutput")
+    if k == "ensemble":
+        return all(_exog_ok(m) for m in spec["members"])
+    if k == "mux":
+        return _exog_ok(spec["members"][spec["selected"]])
+    return False
+
+
+def _make_X(y, seed):
+    rs = np.random.RandomState(seed)
+    return pd.DataFrame({"x0": np.round(rs.normal(size=len(y)), 4),
+                         "x1": np.round(np.sin(np.arange(len(y)) / 3.0), 4)}, index=y.index)
 
 
 # ------------------------------------------------------------------ helpers
@@ -181,10 +210,12 @@ def _key(label):
 class Actor:
     """One forecaster driven through the history (the primary or the shifted twin)."""
 
-    def __init__(self, spec, y_full, index_kind):
+    def __init__(self, spec, y_full, index_kind, X_full=None):
         self.spec = spec
         self.f = C.build(spec)
         self.y = y_full
+        self.X = X_full
+        self.seenX = {}
         self.kind = index_kind
         self.pos = 0            # number of points handed over so far (high-water mark)
         self.cut = None         # position of the cutoff in y_full
@@ -207,6 +238,20 @@ class Actor:
     def observe(self, b):
         for lab, v in zip(b.index, b.values):
             self.seen[_key(lab)] = float(v)
+        if self.X is not None and len(b):
+            xb = self.X.loc[b.index]
+            for lab, row in zip(xb.index, xb.values):
+                self.seenX[_key(lab)] = [float(v) for v in row]
+
+    def xbatch(self, b):
+        return None if self.X is None else self.X.loc[b.index]
+
+    def seen_X(self):
+        if self.X is None:
+            return None
+        ys = self.seen_series()
+        return pd.DataFrame([self.seenX[_key(l)] for l in ys.index], index=ys.index,
+                            columns=self.X.columns)
 
     def seen_series(self):
         keys = sorted(self.seen)
@@ -282,11 +327,19 @@ class Engine:
         self.res = res
         self.spec = scen["spec"]
         self.kind = scen["series"]["index"]
-        self.a = Actor(self.spec, y, self.kind)
+        X = _make_X(y, scen["series"]["seed"] + 9) if scen.get("exog") else None
+        self.a = Actor(self.spec, y, self.kind, X)
         self.tw = None
         if prop == "C03":
-            self.tw = Actor(self.spec, C.shift_series(y, scen["shift"]), self.kind)
+            y2 = C.shift_series(y, scen["shift"])
+            X2 = None
+            if X is not None:
+                X2 = X.copy()
+                X2.index = y2.index
+            self.tw = Actor(self.spec, y2, self.kind, X2)
             res.fault("index_shift")
+        if X is not None:
+            res.probe("exogenous_data")
         self.digest = hashlib.sha256()
         self.state_changes = 0
         self.fault_events = 0
@@ -362,8 +415,9 @@ class Engine:
         def do(actor):
             b = actor.batch(0, n0)
             fh = _mk_fh(fhs, None, actor.kind) if fhs else None
-            out = actor.f.fit(b, fh=fh)
+            out = actor.f.fit(b, X=actor.xbatch(b), fh=fh)
             actor.seen = {}
+            actor.seenX = {}
             actor.observe(b)
             actor.pos = n0
             actor.cut = n0 - 1
@@ -409,7 +463,7 @@ class Engine:
 
         def do(actor):
             b, ov = self._update_args(actor, op)
-            out = actor.f.update(b, update_params=up)
+            out = actor.f.update(b, X=actor.xbatch(b), update_params=up)
             if len(b):
                 actor.observe(b)
                 actor.pos = max(actor.pos, actor.pos + op["take"])
@@ -704,6 +758,16 @@ class Engine:
                         ("index", list(y_in.index[:3]), list(exp.index[:3])))
                 self.v("memory_not_union", "after %s #%d the remembered series is not the union of "
                        "the observations given (later wins): %s" % (op["op"], i, bad), op=op["op"])
+                return
+        X_in = getattr(f, "_X", None)
+        if self.a.X is not None and self.spec["kind"] != "gscv":
+            expX = self.a.seen_X()
+            okx = X_in is not None and X_in.shape == expX.shape and C.same_index(
+                list(X_in.index), list(expX.index)) and C.same_values(X_in.values, expX.values, exact=True)
+            if not okx:
+                self.v("exog_memory_not_union", "after %s #%d the remembered exogenous data is not the "
+                       "union of the rows given (shape %s vs %s)" % (
+                           op["op"], i, getattr(X_in, "shape", None), expX.shape), op=op["op"])
 
     # ---- C10 oracles on predictions
     def check_c10_prediction(self, i, p, steps):
@@ -719,7 +783,7 @@ class Engine:
                     fit_fh = _mk_fh(self.fit_fh, None, a.kind) if self.fit_fh else None
                     s2 = sched.Scheduler("fifo", 0)
                     with sched.scenario_schedule(s2):
-                        twin.fit(a.seen_series(), fh=fit_fh)
+                        twin.fit(a.seen_series(), X=a.seen_X(), fh=fit_fh)
                         q = twin.predict(_mk_fh(fhs, None, a.kind))
                 except Exception as e:  # noqa
                     self.note("twin_raised", type(e).__name__)
@@ -739,7 +803,7 @@ class Engine:
                     params_before = _fitted_params(g)
                     union = pd.concat(self.since_refit)
                     union = union[~union.index.duplicated(keep="last")].sort_index()
-                    g.update(union, update_params=False)
+                    g.update(union, X=a.xbatch(union), update_params=False)
                     q = g.predict(_mk_fh(fhs, None, a.kind))
                     params_now = _fitted_params(a.f)
                 except Exception as e:  # noqa
